@@ -121,7 +121,12 @@ func receive(data []byte, out net.Conn) {
 	var cblen uint16
 	binary.Read(buf, binary.LittleEndian, &cblen)
 	pkt := make([]byte, cblen)
-	binary.Read(buf, binary.LittleEndian, &pkt)
+	if err := binary.Read(buf, binary.LittleEndian, &pkt); err != nil {
+		// the packet carries less than it declares, there is nothing
+		// trustworthy to forward
+		log.Printf("Data packet declares %d bytes but carries %d, dropped", cblen, buf.Size()-2)
+		return
+	}
 
 	out.Write(pkt)
 }
